@@ -283,7 +283,7 @@ func newWorld(t *testing.T, out *hx.Out, rng *rand.Rand) *world {
 		w.s.App.AccountKeeper.SetAccount(ctx, w.vestingAccount(base, a.vest))
 		w.add(a)
 	}
-	for i := 0; i < 7; i++ { // 11..13 ethereum-key accounts, 14..16 dual, 17 an ethereum address that does not exist on chain (never funded)
+	for i := 0; i < 8; i++ { // 11..13 ethereum-key accounts, 14..16 dual, 17 and 18 ethereum addresses that do not exist on chain (never funded)
 		var k *ecdsa.PrivateKey
 		for k == nil {
 			bz := make([]byte, 32)
@@ -2169,7 +2169,7 @@ func (w *world) reset() {
 	}
 	// funding
 	for _, a := range w.actors {
-		if a.id == idFresh && freshTarget() {
+		if a.id >= idFresh && freshTarget() {
 			continue // stays without account until something is sent to it
 		}
 		for di, d := range w.denoms {
@@ -3012,6 +3012,17 @@ func (w *world) freshTargetScenario() {
 	mig("no-liquid-coin-source-to-fresh-address", u1, fresh) // accepted; nothing is sent: the target gets no account
 	mig("old-target-without-account-as-target", u2, fresh)   // must be refused: already used
 	w.opBlock(1)
+	// a source that holds nothing at all: the migration is accepted and moves nothing; the target has neither account nor
+	// record of its own afterwards, and is used up all the same
+	u5, fresh2 := w.byID[5], w.byID[idFresh+1]
+	for di, d := range w.denoms {
+		if bal := w.s.App.BankKeeper.GetBalance(w.s.Ctx, u5.addr, d).Amount; bal.IsPositive() {
+			res := w.exec(&banktypes.MsgSend{FromAddress: u5.addr.String(), ToAddress: u3.addr.String(), Amount: sdk.NewCoins(sdk.NewCoin(d, bal))})
+			w.emit(fmt.Sprintf("send %d %d %d %s", u5.id, u3.id, di, bal), kind(res))
+		}
+	}
+	mig("empty-source-to-fresh-address", u5, fresh2)
+	mig("old-target-without-account-or-records-as-target", u2, fresh2) // must be refused: already used
 	mig("ordinary-source-to-funded-address", u4, e2)
 	mig("old-target-without-account-as-target-again", u3, fresh)
 	w.opBlock(unbondSecs)
